@@ -431,6 +431,9 @@ var seed = maphash.MakeSeed()
 
 // hashString computes the hash of s.
 func hashString(s string) uint32 {
+	if h, ok := verifStringHash(s); ok {
+		return h // verification hook; constant false without build tag verif
+	}
 	if len(s) >= 12 {
 		// Call the Go runtime's optimized hash implementation,
 		// which uses the AES instructions on amd64 and arm64 machines.
